@@ -73,6 +73,11 @@ func registerTime(m *Machine) {
 		m.horizonNs = int64(a[0].(*Term).C) * 1_000_000
 		return nil
 	}
+	// vfSettle(): the other goroutines run until each of them is blocked or finished
+	I["vfSettle"] = func(m *Machine, fr *frame, a []Value, _ *ssa.CallCommon) Value {
+		m.drain()
+		return nil
+	}
 	I["time.Now"] = func(m *Machine, fr *frame, a []Value, _ *ssa.CallCommon) Value { return m.timeNow() }
 	I["time.Unix"] = func(m *Machine, fr *frame, a []Value, _ *ssa.CallCommon) Value {
 		sec, nsec := a[0].(*Term), a[1].(*Term)
